@@ -31,5 +31,10 @@ def run(P, R, L):
     K.ord3_flush(P, R, L)
     R.clause("GRD-17", "a flushed table is placed below level 0 only while nothing in level 0 or in the next level overlaps its range")
     K.grd17_memtable_output_level(P, R, L)
+    R.clause("GRD-19", "a level-0 compaction (size- or seek-triggered) always takes every overlapping level-0 file along")
+    K.grd19_level0_inputs_closed(P, R, L)
+    K.bundle_readpath(P, R, L)
+    K.bundle_retention(P, R, L)
+    K.bundle_liveness(P, R, L)
     R.not_decided += ["picking policy", "overlap computation for a concrete layout", "boundary-file expansion results",
                       "find_smallest_boundary_file's accumulator (Option<Arc<FileMetadata>> compared through a closure) is not resolved by ACC-1"]
